@@ -445,6 +445,14 @@ _ext("C20",
      "not proved; ring to bounded-stack refinement not proved; the delegated task_arena::execute path is tied by a generated fact only.",
      "composition of per-object proved cores + count-based ring invariant + differential of the real arena_co_cache + no-hook white-box tracing")
 
+_ext("C07",
+     "Session 3: token life cycle under cancellation and exceptions (every token object the library creates is destroyed exactly once, the stop() value is dropped, "
+     "the token bound and the return-after-drain clause also hold for cancelled runs, cancellation preserves every safety theorem of the base model) and token-number "
+     "wrap-around (the machine-word input_buffer refines the unbounded model across 2^64).",
+     "One recorded defect: tokens parked in a serial filter's buffer of a cancelled pipeline leak (the regenerated bufferCleanup flag is false; theorems hold for both "
+     "values).",
+     "overlay model (cancellation = never scheduled again) + exhaustive-k fault campaign with a per-identity token ledger + machine-word refinement of the ring + happens-before monitor")
+
 def main():
     checks = []
     for pid in ALL:
